@@ -43,6 +43,20 @@ pub fn packets(tier: &str, seed: u64, big: bool) -> Vec<(Packet<'static>, String
             v.push((p, format!("type:{}", KIND_NAMES[kind])));
         }
     }
+    // questions only: two to five questions whose names share suffixes (a browse for several service types), no records
+    for k in 0..12usize {
+        let mut p = Packet::new_query(k as u16);
+        let base = g.name();
+        let base_labels: Vec<Vec<u8>> = base.get_labels().iter().map(|l| l.as_bytes().to_vec()).collect();
+        p.questions.push(Question::new(base.clone(), g.qtype(), g.qclass(), false));
+        for j in 0..(1 + k % 4) {
+            let mut l = vec![vec![b'q', b'0' + j as u8]];
+            l.extend(base_labels.clone());
+            if l.iter().map(|x| x.len() + 1).sum::<usize>() + 1 > 255 { continue; }
+            p.questions.push(Question::new(if j % 2 == 0 { crate::gen::mk_name(&l) } else { base.clone() }, g.qtype(), g.qclass(), j == 1));
+        }
+        v.push((p, "questions-only".to_string()));
+    }
     // one record of each kind whose RDATA names (SRV target, MX exchange, IPSECKEY gateway, SOA names ...) are all the
     // root name, owned by a non-root name
     for kind in 0..N_KINDS {
